@@ -42,6 +42,13 @@ use verif_harness::*;
 struct Guard;
 static ALLOCATED: AtomicUsize = AtomicUsize::new(0);
 static CURRENT_CASE: AtomicUsize = AtomicUsize::new(usize::MAX);
+static QUIET: std::sync::atomic::AtomicBool = std::sync::atomic::AtomicBool::new(false);
+fn quietly<R>(f: impl FnOnce() -> R + std::panic::UnwindSafe) -> std::thread::Result<R> {
+    QUIET.store(true, Ordering::Relaxed);
+    let r = std::panic::catch_unwind(f);
+    QUIET.store(false, Ordering::Relaxed);
+    r
+}
 const MEM_LIMIT: usize = 3 << 30;
 unsafe impl std::alloc::GlobalAlloc for Guard {
     unsafe fn alloc(&self, l: std::alloc::Layout) -> *mut u8 {
@@ -146,7 +153,7 @@ fn config_of(c: &Case) -> Option<TurtleConfig> {
         .map(|(p, n)| (Prefix::new_unchecked(p.clone().into_boxed_str()), Iri::new_unchecked(n.clone().into_boxed_str())))
         .collect();
     let (pretty, indent) = (c.pretty, c.indent.clone());
-    std::panic::catch_unwind(move || TurtleConfig::new().with_pretty(pretty).with_own_prefix_map(pm).with_indentation(indent)).ok()
+    quietly(move || TurtleConfig::new().with_pretty(pretty).with_own_prefix_map(pm).with_indentation(indent)).ok()
 }
 const REFUSED: &str = "configuration refused";
 
@@ -155,7 +162,7 @@ fn serialise(c: &Case) -> Result<String, String> {
     let Some(cfg) = config_of(c) else { return Err(REFUSED.into()) };
     let quads = c.quads.clone();
     let trig = c.trig;
-    let r = std::panic::catch_unwind(move || -> Result<String, String> {
+    let r = quietly(move || -> Result<String, String> {
         if trig {
             let d: Vec<Spog<ST>> = quads.iter().map(|(g, t)| ([to_st(&t[0]), to_st(&t[1]), to_st(&t[2])], g.as_ref().map(to_st))).collect();
             let mut ser = TrigSerializer::new_stringifier_with_config(cfg);
@@ -557,12 +564,28 @@ fn witnesses() -> Vec<(&'static str, Case)> {
             (None, [b("m"), rdf("first"), d("2", "integer")]), (None, [b("m"), rdf("rest"), rdf("nil")])], false)),
         ("row 29: quoted (not asserted) triple whose object is rdf:nil", base(&["quoted-with-nil", "quoted-not-asserted"], vec![
             (Some(ex("g")), [qt(ex("n1"), ex("p"), rdf("nil")), ex("ann"), T::Lit("lit".into(), xsd("string"))])], true)),
+        ("new (same fix as row 29): rdf:nil as a predicate is abbreviated ()", base(&["nil-as-predicate"], vec![(None, [ex("s"), rdf("nil"), ex("o")])], false)),
+        ("new (same fix as row 29): rdf:nil as a datatype is abbreviated ()", base(&["nil-as-datatype"], vec![(None, [ex("s"), ex("p"), T::Lit("x".into(), format!("{RDF}nil"))])], false)),
+        ("new (same fix as row 29): rdf:nil as a graph name is abbreviated ()", base(&["nil-as-graph-name"], vec![(Some(rdf("nil")), [ex("s"), ex("p"), ex("o")])], true)),
+        ("new: an indentation accepted by with_indentation (form feed) that is not white space for Turtle", { let mut c = base(&["plain"], vec![(None, [ex("s"), ex("p"), ex("o")])], false); c.indent = "\u{c}".into(); c }),
+        ("new: an indentation accepted by with_indentation (no-break space) that is not white space for Turtle", { let mut c = base(&["plain"], vec![(None, [ex("s"), ex("p"), ex("o")])], false); c.indent = "\u{a0}".into(); c }),
     ]
 }
 
 fn main() {
     let a = parse_args();
-    std::panic::set_hook(Box::new(|_| {}));   // panics of the implementation are caught and reported by the oracle
+    // panics of the implementation are caught and reported by the oracle; the harness's own are shown
+    let default_hook = std::panic::take_hook();
+    std::panic::set_hook(Box::new(move |info| { if !QUIET.load(Ordering::Relaxed) { default_hook(info) } }));
+    if a.rest.iter().any(|x| x == "--witness-loop") {
+        // pre-fix only: rows 3 + 4 together make build_lists push items forever (stopped by the memory guard)
+        let c = Case { shapes: vec!["list-two-rest".into(), "self-loop".into()], quads: vec![
+            (None, [b("b"), rdf("first"), b("a")]), (None, [b("b"), rdf("rest"), rdf("nil")]), (None, [b("b"), rdf("rest"), b("b")])],
+            prefixes: vec![], indent: "  ".into(), pretty: true, trig: false };
+        CURRENT_CASE.store(0, Ordering::Relaxed);
+        println!("{}", match oracle(&c) { Ok(t) => format!("round-trips:\n{t}"), Err(e) => format!("FAILS: {e}") });
+        return;
+    }
     if a.rest.iter().any(|x| x == "--witness") {
         let mut bad = 0;
         for (name, c) in witnesses() {
@@ -608,7 +631,8 @@ non-trivial = the dataset has a blank node, a quoted triple, a list, a numeric/b
         let res = oracle(&c);
         if a.only.is_some() { println!("CASE {idx}: {desc}\n=> {}", match &res { Ok(t) => format!("round-trips; output:\n{t}"), Err(e) => format!("FAILS: {e}") }); }
         if let Err(e) = &res {
-            sum.oracle_failures.push((idx.to_string(), format!("shape classes [{}]: {e}\ncase: {desc}", c.shapes.join("+"))));
+            let clip = |x: &str| -> String { if x.chars().count() > 1200 { format!("{} [...]", x.chars().take(1200).collect::<String>()) } else { x.to_string() } };
+            sum.oracle_failures.push((idx.to_string(), format!("shape classes [{}]: {}\ncase: {}", c.shapes.join("+"), clip(e), clip(&desc))));
         }
         for s in &c.shapes { sum.bump(&format!("shape:{s}")); }
         sum.bump(if c.pretty { "mode:pretty" } else { "mode:plain" });
@@ -631,9 +655,12 @@ non-trivial = the dataset has a blank node, a quoted triple, a list, a numeric/b
                 if let T::Iri(i) = &c.quads[0].1[2] {
                     // the object token: between "<urn:p> " and the final "."
                     let tok = text.rsplit("<urn:p>").next().unwrap().trim().trim_end_matches('.').trim().to_string();
-                    let obs = if tok.starts_with('<') { None } else { let k = tok.find(':').unwrap(); Some(format!("({}, {})", coq_str(&tok[..k]), coq_str(&tok[k + 1..]))) };
-                    let pm = coq_list(c.prefixes.iter().map(|(p, n)| format!("({}, {})", coq_str(p), coq_str(n))));
-                    cases.push((idx, format!("pname_ok {pm} {} {}", coq_str(i), coq_opt(obs))));
+                    // rdf:nil as an object is written `()`: not a decision of write_iri's prefix logic
+                    if tok != "()" {
+                        let obs = if tok.starts_with('<') { None } else { let k = tok.find(':').expect("prefixed name"); Some(format!("({}, {})", coq_str(&tok[..k]), coq_str(&tok[k + 1..]))) };
+                        let pm = coq_list(c.prefixes.iter().map(|(p, n)| format!("({}, {})", coq_str(p), coq_str(n))));
+                        cases.push((idx, format!("pname_ok {pm} {} {}", coq_str(i), coq_opt(obs))));
+                    }
                 }
             }
         }
